@@ -376,7 +376,7 @@ def gen_code_block(rng, labels, externs, term=None):
     return insns
 
 
-def gen_case(rng, nblocks=None, with_data=True, with_funcs=True, nedits=None):
+def gen_case(rng, nblocks=None, with_data=True, with_funcs=True, nedits=None, cfg_domain=False):
     nblocks = nblocks or rng.randint(1, 7)
     externs = ["ext_a", "ext_b"]
     kinds = []
@@ -423,6 +423,10 @@ def gen_case(rng, nblocks=None, with_data=True, with_funcs=True, nedits=None):
             d["entry"] = True
     case = {"isa": "X64", "ff": "ELF", "text": text, "externs": externs}
     case["edits"] = gen_edits(rng, case, nedits)
+    if cfg_domain:
+        # C03: keep the module inside "CFG consistent with the code": drop requests that would
+        # leave code running off into data / the end of the section
+        case["edits"] = [e for e in case["edits"] if not runs_off_end({"text": text, "edits": [e]})]
     return case
 
 
@@ -584,6 +588,32 @@ def run_listing(case):
 
 def block_size(d):
     return block_layout(d)[-1] if d["kind"] == "code" else len(d["bytes"])
+
+
+def runs_off_end(case):
+    """C03 is about modules whose CFG matches their code.  A request that removes the
+    terminator (jmp/ret) of a block which is not followed by code leaves code that runs off
+    into data or the end of the section: nothing the rewriter could connect it to."""
+    text = case["text"]
+    for e in case.get("edits", []):
+        d = text[e["block"]]
+        if d["kind"] != "code":
+            continue
+        size = block_size(d)
+        nxt = e["block"] + 1
+        follows_code = nxt < len(text) and text[nxt]["kind"] == "code"
+        if follows_code:
+            continue
+        if e["op"] == "insert":
+            # code appended behind the last block's terminator that itself runs off the end
+            lines = [l.strip() for l in e["asm"].splitlines() if l.strip() and not l.strip().endswith(":") and not l.strip().startswith(".")]
+            last = lines[-1].split()[0] if lines else ""
+            if e["off"] == size and last not in ("jmp", "ret"):
+                return True
+        elif e["off"] + e["len"] == size and d["insns"][-1][0] in ("jmp", "ret"):
+            return True
+    return False
+
 
 
 def predicted_rejections(case):
